@@ -97,7 +97,6 @@ type Presentation struct {
 	Body, Witness KeyOrder
 }
 
-
 // Presentations lists the presentation variants of the spec that really
 // change its bytes: body map descending / shuffled / each of (at most three
 // of) its optional keys moved last, witness-set map descending / shuffled,
